@@ -8,7 +8,7 @@ Quantifiers: every 16-bit word and every line `k < 16` (no enumeration of words)
 integers, every step; every family of 16 binary trains of every length; every recording whose rows have the
 width announced by the meta data.
 -/
-import IblVerif.Lemmas.SyncTTL
+import IblVerif.Analysis.SyncOrderedC10
 
 namespace IblVerif.C10
 open IblVerif.Sync
@@ -396,6 +396,268 @@ theorem ttl_recovered_imec {α : Type} [Sub α] [LT α] [DecidableLT α] [LE α]
     exact ⟨fun s => ttl_fronts2 n ntr train rows _ hsync t k s hk,
       ttl_rises2 n ntr train rows _ hsync t k hk, ttl_falls2 n ntr train rows _ hsync t k hk⟩
 
+/-! ## 6. Growth round: the array pipeline, row-wise and column-wise detection, windows, exactly-once -/
+
+/-- `split_sync` on a whole array, as the source computes it (cast to int16, byte view, `unpackbits`,
+`reshape(size, 16)`, roll by 8 and flip along axis 1): one output row per sample, in the order of the samples, and
+entry `(t, k)` is bit `k` of the word of sample `t` — for every array of samples of every length. -/
+theorem split_sync_array (xs : List Int) :
+    ∃ out, splitSyncFlat xs = some out ∧ out.length = xs.length ∧
+      ∀ t x, xs[t]? = some x → ∀ k, k < 16 →
+        at2 out (t, k) = some (if (wordOfInt x).testBit k then 1 else 0) := by
+  refine ⟨splitSyncArr xs, splitSyncFlat_eq xs, by simp [splitSyncArr], ?_⟩
+  intro t x hx k hk
+  have hw : wordOfInt x < 65536 := by unfold wordOfInt; omega
+  unfold at2 splitSyncArr
+  simp only [List.getElem?_map, hx, Option.map_some]
+  exact (split_sync_bit _ hw k hk).2
+
+section Generic
+variable {α : Type} [Sub α] [Neg α] [LT α] [DecidableLT α] [LE α] [DecidableLE α] [OfNat α 0] [OfNat α 1]
+
+/-- 2-D detection along the LAST axis is the 1-D detection applied to every row, rows in order (every shape, also
+ragged or empty; every value type): equality of the returned lists. -/
+theorem fronts2_rowwise (x : List (List α)) (step : α) (analog : Bool) :
+    fronts2 1 x step = x.zipIdx.flatMap (fun ri => (frontsPairs ri.1 step).map fun q => ((ri.2, q.1), q.2)) ∧
+    rises2 1 x step analog = x.zipIdx.flatMap (fun ri => (rises ri.1 step analog).map fun t => (ri.2, t)) ∧
+    falls2 1 x step analog = x.zipIdx.flatMap (fun ri => (falls ri.1 step analog).map fun t => (ri.2, t)) := by
+  have hr : ∀ (y : List (List α)) (st : α) (an : Bool),
+      rises2 1 y st an = y.zipIdx.flatMap (fun ri => (rises ri.1 st an).map fun t => (ri.2, t)) := by
+    intro y st an
+    rw [rises2_eq_sw2]
+    unfold sw2
+    rw [sw2_axis1_rowwise, List.zipIdx_map]
+    simp only [List.map_flatMap, List.flatMap_map, List.map_map, Function.comp_def, rises_eq_sw1, Prod.map_fst,
+      Prod.map_snd, id]
+  refine ⟨?_, hr x step analog, ?_⟩
+  · rw [fronts2_eq_sw2]
+    unfold sw2
+    rw [sw2_axis1_rowwise]
+    rfl
+  · unfold falls2 falls
+    rw [hr, List.zipIdx_map]
+    simp only [List.flatMap_map, Prod.map_fst, Prod.map_snd, id]
+
+/-- 2-D detection along the FIRST axis is the 1-D detection on every column: `(i, j)` is reported iff `i` is reported
+for column `j` (`col` is any list holding the entries of column `j`), with the same signed step. -/
+theorem fronts2_columnwise (x : List (List α)) (col : List α) (j : Nat) (hcol : ∀ i, col[i]? = at2 x (i, j))
+    (step : α) (analog : Bool) (i : Nat) :
+    (∀ s, ((i, j), s) ∈ fronts2 0 x step ↔ (i, s) ∈ frontsPairs col step) ∧
+    ((i, j) ∈ rises2 0 x step analog ↔ i ∈ rises col step analog) ∧
+    ((i, j) ∈ falls2 0 x step analog ↔ i ∈ falls col step analog) := by
+  have hr : ∀ (y : List (List α)) (cl : List α) (_ : ∀ i, cl[i]? = at2 y (i, j)) (st : α) (an : Bool),
+      ((i, j) ∈ rises2 0 y st an ↔ i ∈ rises cl st an) := by
+    intro y cl hcl st an
+    rw [rises2_eq_sw2, rises_eq_sw1]
+    have hc : ∀ i', (cl.map (if an then binOne st else id))[i']? =
+        at2 (y.map fun r => r.map (if an then binOne st else id)) (i', j) := by
+      intro i'; rw [at2_map_map, List.getElem?_map, hcl]
+    simp only [List.mem_map, Prod.exists, exists_and_right, exists_eq_right]
+    constructor
+    · rintro ⟨v, hv⟩
+      exact ⟨v, (sw2_axis0_col _ _ _ j hc i v).mp (by simpa using hv)⟩
+    · rintro ⟨v, hv⟩
+      exact ⟨v, by simpa using (sw2_axis0_col _ _ _ j hc i v).mpr hv⟩
+  refine ⟨fun s => sw2_axis0_col _ x col j hcol i s, hr x col hcol step analog, ?_⟩
+  unfold falls2 falls
+  apply hr
+  intro i'
+  rw [at2_map_map, List.getElem?_map, hcol]
+
+/-- **Window independence** (1-D).  A trace visited in consecutive windows of any sizes (also empty ones), each window
+but the first read again from the last sample already seen: the detections of the windows, moved by the position of
+their first sample, are exactly the detections on the whole trace — every event once, none lost on a seam.
+`fronts`, and `rises` / `falls` in either mode. -/
+theorem fronts_windows (ws : List (List α)) (step : α) (analog : Bool) :
+    chunked (fun w => frontsPairs w step) (fun k q => (q.1 + k, q.2)) 0 none ws = frontsPairs ws.flatten step ∧
+    chunked (fun w => rises w step analog) (fun k t => t + k) 0 none ws = rises ws.flatten step analog ∧
+    chunked (fun w => falls w step analog) (fun k t => t + k) 0 none ws = falls ws.flatten step analog := by
+  have hr : ∀ (st : α) (an : Bool) (h : α → α) (p : α → Bool),
+      chunked (fun w => (sw1 p (w.map h)).map (·.1)) (fun k t => t + k) 0 none ws =
+        (sw1 p (ws.flatten.map h)).map (·.1) := by
+    intro _ _ h p
+    have := chunked_of_seam (fun w : List α => (sw1 p (w.map h)).map (·.1)) (fun k t => t + k)
+      (by simp [sw1_nil]) (by simp)
+      (by
+        intro l1 a l2
+        simp only [List.map_append, List.map_cons, List.map_nil]
+        rw [sw1_seam]
+        simp [List.map_map, Function.comp_def])
+      ws []
+    simpa [sw1_nil] using this.symm
+  refine ⟨?_, ?_, ?_⟩
+  · have := chunked_of_seam (fun w : List α => frontsPairs w step) (fun k q => (q.1 + k, q.2))
+      (by simp [frontsPairs_eq_sw1, sw1_nil]) (by simp)
+      (by intro l1 a l2; simp only [frontsPairs_eq_sw1]; exact sw1_seam _ l1 l2 a) ws []
+    simpa [frontsPairs_eq_sw1, sw1_nil] using this.symm
+  · simp only [rises_eq_sw1]
+    exact hr step analog _ _
+  · have hf : ∀ w : List α, falls w step analog =
+        (sw1 (risesPred (if analog then 1 else -step))
+          (w.map ((if analog then binOne (-step) else id) ∘ fun v => -v))).map (·.1) := by
+      intro w; unfold falls; rw [rises_eq_sw1, List.map_map]
+    simp only [hf]
+    exact hr step analog _ _
+
+/-- **Window independence** (2-D, along the first axis: rows = samples, as for a decoded sync matrix). -/
+theorem fronts2_windows (ws : List (List (List α))) (step : α) (analog : Bool) :
+    chunked (fun w => fronts2 0 w step) (fun k q => ((q.1.1 + k, q.1.2), q.2)) 0 none ws = fronts2 0 ws.flatten step ∧
+    chunked (fun w => rises2 0 w step analog) (fun k q => (q.1 + k, q.2)) 0 none ws = rises2 0 ws.flatten step analog ∧
+    chunked (fun w => falls2 0 w step analog) (fun k q => (q.1 + k, q.2)) 0 none ws = falls2 0 ws.flatten step analog := by
+  have hr : ∀ (h : α → α) (p : α → Bool),
+      chunked (fun w : List (List α) => (sw2 p 0 (w.map fun r => r.map h)).map (·.1)) (fun k q => (q.1 + k, q.2)) 0 none ws =
+        (sw2 p 0 (ws.flatten.map fun r => r.map h)).map (·.1) := by
+    intro h p
+    have := chunked_of_seam (fun w : List (List α) => (sw2 p 0 (w.map fun r => r.map h)).map (·.1))
+      (fun k q => (q.1 + k, q.2)) (by simp [sw2_nil]) (by simp)
+      (by
+        intro l1 a l2
+        simp only [List.map_append, List.map_cons, List.map_nil]
+        rw [sw2_seam]
+        simp [List.map_map, Function.comp_def])
+      ws []
+    simpa [sw2_nil] using this.symm
+  refine ⟨?_, ?_, ?_⟩
+  · have := chunked_of_seam (fun w : List (List α) => fronts2 0 w step) (fun k q => ((q.1.1 + k, q.1.2), q.2))
+      (by simp [fronts2_eq_sw2, sw2_nil]) (by simp)
+      (by intro l1 a l2; simp only [fronts2_eq_sw2]; exact sw2_seam _ l1 l2 a) ws []
+    simpa [fronts2_eq_sw2, sw2_nil] using this.symm
+  · simp only [rises2_eq_sw2]
+    exact hr _ _
+  · have hf : ∀ w : List (List α), falls2 0 w step analog =
+        (sw2 (risesPred (if analog then 1 else -step)) 0
+          (w.map fun r => r.map ((if analog then binOne (-step) else id) ∘ fun v => -v))).map (·.1) := by
+      intro w; unfold falls2; rw [rises2_eq_sw2, List.map_map]
+      simp [List.map_map, Function.comp_def]
+    simp only [hf]
+    exact hr _ _
+
+/-- **Exactly once.**  `rises` and `falls` (either mode) list every detected sample exactly once. -/
+theorem detected_once (x : List α) (step : α) (analog : Bool) (t : Nat) :
+    (rises x step analog).count t = (if t ∈ rises x step analog then 1 else 0) ∧
+    (falls x step analog).count t = (if t ∈ falls x step analog then 1 else 0) := by
+  have hs : ∀ (y : List α) (st : α) (an : Bool), (rises y st an).Pairwise (· < ·) := by
+    intro y st an
+    unfold rises
+    exact shifted_where_sorted_fst _ _
+  exact ⟨count_of_sorted _ (hs x step analog) t, count_of_sorted _ (by unfold falls; exact hs _ _ _) t⟩
+
+end Generic
+
+/-- Analog mode: a trace that crosses the threshold between two consecutive samples yields exactly one front there —
+one entry of `rises` when it goes up (`x[t−1] ≤ thr < x[t]`), one entry of `falls` when it goes down, never both, and
+no entry anywhere else. -/
+theorem analog_crossing_once (x : List Int) (thr : Int) (t : Nat) :
+    ((rises x thr true).count t = 1 ↔ 1 ≤ t ∧ ∃ a b, x[t - 1]? = some a ∧ x[t]? = some b ∧ a ≤ thr ∧ thr < b) ∧
+    ((falls x thr true).count t = 1 ↔ 1 ≤ t ∧ ∃ a b, x[t - 1]? = some a ∧ x[t]? = some b ∧ thr ≤ a ∧ b < thr) ∧
+    (rises x thr true).count t ≤ 1 ∧ (falls x thr true).count t ≤ 1 ∧
+    ¬ (t ∈ rises x thr true ∧ t ∈ falls x thr true) := by
+  have h := detected_once x thr true t
+  have ha := rises_falls_analog x thr t
+  refine ⟨?_, ?_, ?_, ?_, ?_⟩
+  · rw [h.1, ← ha.1]; split <;> simp_all
+  · rw [h.2, ← ha.2]; split <;> simp_all
+  · rw [h.1]; split <;> omega
+  · rw [h.2]; split <;> omega
+  · rw [ha.1, ha.2]
+    rintro ⟨⟨_, a, b, h1, h2, h3, h4⟩, ⟨_, a', b', h1', h2', h3', h4'⟩⟩
+    rw [h1] at h1'; rw [h2] at h2'
+    cases h1'; cases h2'
+    omega
+
+/-- Column `j` of a rectangular integer matrix satisfies the hypothesis of `fronts2_columnwise`. -/
+theorem fronts2_columnwise_rect (x : List (List Int)) (c j : Nat) (hrect : ∀ r ∈ x, r.length = c) (hj : j < c)
+    (step : Int) (i : Nat) (s : Int) :
+    ((i, j), s) ∈ fronts2 0 x step ↔ (i, s) ∈ frontsPairs (x.map fun r => r.getD j 0) step :=
+  (fronts2_columnwise x _ j (col_getD x c j hrect hj) step false i).1 s
+
+/-- Reading the sync of an imec stream window by window (each window re-reading one sample) and detecting fronts on
+the decoded lines of every window recovers exactly the fronts of the whole recording: `rd` is `read_sync` (the empty
+matrix when it fails, which it does not on rows of the announced width). -/
+theorem read_sync_windows_imec {β : Type} [Sub β] [LT β] [DecidableLT β] [LE β] [DecidableLE β] [OfNat β 0]
+    [OfNat β 1] (conv : Int → Int → β) (pct : List (List β) → Option (List β)) (toI8 : β → Int)
+    (ap lf ntr : Nat) (thr : β) (floor : Bool)
+    (htyp : (ap = 0 ∧ lf ≠ 0) ∨ (ap ≠ 0 ∧ lf = 0)) (hntr : 1 ≤ ntr)
+    (ws : List (List (List Int))) (hrows : ∀ w ∈ ws, ∀ r ∈ w, r.length = ntr) :
+    let rd := fun rows => match readSync conv pct toI8 ntr (.imec ap lf 1) rows thr floor with
+      | .ok m => m
+      | .error _ => []
+    chunked (fun rows => fronts2 0 (rd rows) 1) (fun k q => ((q.1.1 + k, q.1.2), q.2)) 0 none ws =
+      fronts2 0 (rd ws.flatten) 1 := by
+  intro rd
+  have hrd : ∀ rows : List (List Int), (∀ r ∈ rows, r.length = ntr) → rd rows = rows.map (digitalLines ntr) := by
+    intro rows h
+    simp only [rd, read_sync_layout_imec conv pct toI8 ap lf ntr rows thr floor htyp hntr h]
+  rw [chunked_congr _ (fun rows : List (List Int) => fronts2 0 (rows.map (digitalLines ntr)) (1 : Int)) _
+    (fun r : List Int => r.length = ntr)
+    (fun l hl => by simp only [hrd l hl]) ws hrows 0 none (by simp)]
+  rw [hrd ws.flatten (by
+    intro r hr
+    obtain ⟨w, hw, hrw⟩ := List.mem_flatten.mp hr
+    exact hrows w hw r hrw)]
+  have := chunked_of_seam (fun rows : List (List Int) => fronts2 0 (rows.map (digitalLines ntr)) (1 : Int))
+    (fun k q => ((q.1.1 + k, q.1.2), q.2)) (by simp [fronts2_eq_sw2, sw2_nil]) (by simp)
+    (by
+      intro l1 a l2
+      simp only [List.map_append, List.map_cons, List.map_nil, fronts2_eq_sw2]
+      have := sw2_seam (α := Int) (frontsPred 1) (l1.map (digitalLines ntr)) (l2.map (digitalLines ntr))
+        (digitalLines ntr a)
+      rw [List.length_map] at this
+      exact this) ws []
+  simpa [fronts2_eq_sw2, sw2_nil] using this.symm
+
+/-! ## 7. The same specifications over every linearly ordered commutative ring (ℤ, ℚ, ℝ) -/
+
+section Ordered
+variable {α : Type} [CommRing α] [LinearOrder α] [IsStrictOrderedRing α]
+
+/-- `fronts` (1-D, and 2-D along either axis) for every ordered ring: exactly the positions whose predecessor along the
+axis differs by at least `step` in absolute value, each with the signed difference. -/
+theorem fronts_eq_changes_ordered (step : α) :
+    (∀ (x : List α) t s, (t, s) ∈ frontsPairs x step ↔
+      1 ≤ t ∧ ∃ a b, x[t - 1]? = some a ∧ x[t]? = some b ∧ s = b - a ∧ step ≤ |b - a|) ∧
+    (∀ axis (x : List (List α)) ij s, (ij, s) ∈ fronts2 axis x step ↔
+      1 ≤ coord axis ij ∧ ∃ a b, at2 x (prevPos axis ij) = some a ∧ at2 x ij = some b ∧ s = b - a ∧ step ≤ |b - a|) :=
+  ⟨fun x t s => fronts_eq_changes_ord x step t s, fun axis x ij s => fronts2_eq_changes_ord axis x step ij s⟩
+
+/-- `rises` / `falls`, digital mode, for every ordered ring. -/
+theorem rises_falls_spec_ordered (x : List α) (step : α) (t : Nat) :
+    (t ∈ rises x step false ↔ 1 ≤ t ∧ ∃ a b, x[t - 1]? = some a ∧ x[t]? = some b ∧ step ≤ b - a) ∧
+    (t ∈ falls x step false ↔ 1 ≤ t ∧ ∃ a b, x[t - 1]? = some a ∧ x[t]? = some b ∧ b - a ≤ step) :=
+  ⟨rises_spec_ord x step t, falls_spec_ord x step t⟩
+
+/-- Analog mode for every ordered ring (at `ℝ`: the values float samples denote — every operation of the code is exact
+in this mode): `rises` = the upward crossings of the threshold, `falls` = the downward crossings, 1-D and 2-D along
+either axis; each crossing is listed exactly once and never as both. -/
+theorem rises_falls_analog_ordered (thr : α) :
+    (∀ (x : List α) t,
+      (t ∈ rises x thr true ↔ 1 ≤ t ∧ ∃ a b, x[t - 1]? = some a ∧ x[t]? = some b ∧ a ≤ thr ∧ thr < b) ∧
+      (t ∈ falls x thr true ↔ 1 ≤ t ∧ ∃ a b, x[t - 1]? = some a ∧ x[t]? = some b ∧ thr ≤ a ∧ b < thr) ∧
+      (rises x thr true).count t ≤ 1 ∧ (falls x thr true).count t ≤ 1 ∧
+      ¬ (t ∈ rises x thr true ∧ t ∈ falls x thr true)) ∧
+    (∀ axis (x : List (List α)) ij,
+      (ij ∈ rises2 axis x thr true ↔
+        1 ≤ coord axis ij ∧ ∃ a b, at2 x (prevPos axis ij) = some a ∧ at2 x ij = some b ∧ a ≤ thr ∧ thr < b) ∧
+      (ij ∈ falls2 axis x thr true ↔
+        1 ≤ coord axis ij ∧ ∃ a b, at2 x (prevPos axis ij) = some a ∧ at2 x ij = some b ∧ thr ≤ a ∧ b < thr)) := by
+  refine ⟨fun x t => ⟨rises_analog_ord x thr t, falls_analog_ord x thr t, ?_, ?_, ?_⟩,
+    fun axis x ij => ⟨rises2_analog_ord axis x thr ij, falls2_analog_ord axis x thr ij⟩⟩
+  · rw [(detected_once x thr true t).1]; split <;> omega
+  · rw [(detected_once x thr true t).2]; split <;> omega
+  · rw [rises_analog_ord, falls_analog_ord]
+    rintro ⟨⟨_, a, b, h1, h2, h3, h4⟩, ⟨_, a', b', h1', h2', h3', h4'⟩⟩
+    rw [h1] at h1'; rw [h2] at h2'
+    cases h1'; cases h2'
+    exact absurd (lt_of_lt_of_le h4' h3') (not_lt.mpr (le_of_lt (lt_of_le_of_lt h3 h4)))
+
+end Ordered
+
+/-- The hypothesis of `threshold_spec` is met by every linear order: the two masked assignments of `read_sync` turn a
+value into `1` iff it is at least the (positive) threshold. -/
+theorem threshold_spec_linear {α : Type} [LinearOrder α] [Sub α] [Zero α] [One α] (thr v : α) (hthr : (0 : α) < thr) :
+    threshold thr v = if thr ≤ v then 1 else 0 :=
+  threshold_linear thr v hthr
+
 /-! ## Non-vacuity -/
 
 example : splitSync 0x8005 = [1, 0, 1, 0, 0, 0, 0, 0, 0, 0, 0, 0, 0, 0, 0, 1] := by decide
@@ -421,5 +683,23 @@ example :
       recordTTL 3 (fun k t => (k = 0 ∧ 1 ≤ t) ∨ (k = 2 ∧ t = 2)) := by
   intro rows
   exact ⟨rfl, by decide⟩
+/-- the array pipeline on three samples (the third is negative: line 15 is the sign bit) -/
+example : splitSyncFlat [1, 2, -32768] = some [[1, 0, 0, 0, 0, 0, 0, 0, 0, 0, 0, 0, 0, 0, 0, 0],
+    [0, 1, 0, 0, 0, 0, 0, 0, 0, 0, 0, 0, 0, 0, 0, 0], [0, 0, 0, 0, 0, 0, 0, 0, 0, 0, 0, 0, 0, 0, 0, 1]] := by decide
+/-- a trace in three windows (the second one empty), an event on each seam -/
+example : chunked (fun w => frontsPairs w (1 : Int)) (fun k q => (q.1 + k, q.2)) 0 none [[0, 0], [], [1, 1], [0]] =
+    [(2, 1), (4, -1)] ∧ frontsPairs [0, 0, 1, 1, 0] (1 : Int) = [(2, 1), (4, -1)] := by decide
+/-- the hypothesis of `fronts2_columnwise` on a 3 x 2 matrix, column 1 -/
+example : ∀ i, ([0, 0, 1] : List Int)[i]? = at2 [[0, 0], [1, 0], [1, 1]] (i, 1) := by
+  intro i
+  match i with
+  | 0 => rfl | 1 => rfl | 2 => rfl | (n + 3) => simp [at2]
+/-- the hypotheses of `read_sync_windows_imec`: two windows of a 2-channel imec-like stream -/
+example : (∀ w ∈ ([[[0, 1], [0, 1]], [[0, 3]]] : List (List (List Int))), ∀ r ∈ w, r.length = 2) := by decide
+example : rises [0, 3, 4, 3, 2] (3 : Int) true = [2] ∧ (rises [0, 3, 4, 3, 2] (3 : Int) true).count 2 = 1 := by decide
+example : threshold (3 / 2 : ℚ) 2 = 1 ∧ (0 : ℚ) < 3 / 2 := by
+  constructor
+  · rw [threshold_spec_linear _ _ (by norm_num)]; norm_num
+  · norm_num
 
 end IblVerif.C10
